@@ -77,7 +77,7 @@ PARSE_MISTAKES = [
     ('select a1 join b a1 == b1', 'B'), ('select a1 join b on a1 == c1', 'B'), ('select a1 join b on x1 == b1', 'B'), ('select a1 join c on a1 == b1', 'B'),
     ('select a1 join b on a1 == b1', 'noreg'), ('select distinct count(*)', None), ('select MAX(a1) + "z"', None), ('select distinct a1, MAX(a2)', None),
     ('select UNNEST(a1.split(",")), UNNEST([1, 2])', None), ('select *, a1 as x', None), ('select a.nosuch', 'hdr'), ('select a1 order by a1 update a2 = 1', None),
-    ('select a1 update set a2 = 1', None), ('update set a1 = "v" select a2', None), ('select len(MIN(a1))', None), ('select a1 join b on a1 == b1 and', 'B'),
+    ('select a1 update set a2 = 1', None), ('select distinct count a1, MAX(a2)', None), ('select distinct count MAX(a1)', None), ('select distinct count a1, count(*) group by a1', None), ('update set a1 = "v" select a2', None), ('select len(MIN(a1))', None), ('select a1 join b on a1 == b1 and', 'B'),
 ]
 
 
@@ -178,8 +178,8 @@ def part_widths(sh, res):
                 if w not in [x[1] for x in firsts]:
                     firsts.append((i + 1, w))
             expect = len(firsts) > 1
-            for route in ('table', 'csv'):
-                if route == 'csv' and (0 in ws):
+            for route in ('table', 'csv', 'csv_comments', 'csv_rfc_multiline'):
+                if route != 'table' and (0 in ws):
                     continue   # a zero-field record cannot be written as a CSV line (an empty line is one empty field)
                 warns = []
                 res.evaluations += 1
@@ -189,9 +189,18 @@ def part_widths(sh, res):
                 try:
                     if route == 'table':
                         eng.query_table('select NR', [list(r) for r in A], [], warns)
-                    else:
+                    elif route == 'csv':
                         text = refcsv.ref_write(A, ',', 'simple')
                         eng.query('select NR', rc.CSVRecordIterator(io.StringIO(text), None, ',', 'simple'), eng.TableWriter([]), warns)
+                    elif route == 'csv_comments':
+                        # comment lines before and between the records: record numbers are not line numbers
+                        text = '#c\n#c\n' + ''.join(refcsv.ref_write([r], ',', 'simple') + '#c\n' for r in A)
+                        eng.query('select NR', rc.CSVRecordIterator(io.StringIO(text), None, ',', 'simple', comment_prefix='#'), eng.TableWriter([]), warns)
+                    else:
+                        # every record spans two physical lines
+                        A2 = [[('l1\nl2' if j == 0 else c) for j, c in enumerate(r)] for r in A]
+                        text = refcsv.ref_write(A2, ',', 'quoted_rfc')
+                        eng.query('select NR', rc.CSVRecordIterator(io.StringIO(text), None, ',', 'quoted_rfc'), eng.TableWriter([]), warns)
                 except Exception as e:
                     res.violation('width-scan-exception', {'kind': 'widths', 'widths': ws, 'route': route}, None, repr(e))
                     continue
